@@ -506,15 +506,20 @@ func runC16History(t *testing.T, rng *verifsim.RNG, nEvents int) (term string, n
 	return
 }
 
-func TestVerif_C16(t *testing.T) {
+func TestVerif_C16(t *testing.T) { c16Campaign(t, "C16", "C16", "C16Check", 1616) }
+
+// the same multi-allocation TCP-relay histories, judged by C04's isolation predicate (Check/C04TcpCheck.v)
+func TestVerif_C04TCP(t *testing.T) { c16Campaign(t, "C04", "C04tcp", "C04TcpCheck", 404) }
+
+func c16Campaign(t *testing.T, prop, colName, module string, seedOff uint64) {
 	// a goroutine stuck on a mutex keeps a synctest bubble from ever becoming idle: report it in real time
 	watchdog := time.AfterFunc(90*time.Second, func() {
-		fmt.Printf("VERIF-VIOLATION C16 the server stopped making progress (a lock is never released / a goroutine spins): no progress for 90 s of real time; history so far: %s\n", c16Last)
+		fmt.Printf("VERIF-VIOLATION %s the server stopped making progress (a lock is never released / a goroutine spins): no progress for 90 s of real time; history so far: %s\n", prop, c16Last)
 		os.Exit(3)
 	})
 	defer watchdog.Stop()
-	rng := verifsim.NewRNG(verifsim.Seed() + 1616)
-	col := verifsim.NewCollector("C16", "C16Check")
+	rng := verifsim.NewRNG(verifsim.Seed() + seedOff)
+	col := verifsim.NewCollector(colName, module)
 	col.PerFile = 40
 	n := 120
 	if verifsim.Thorough() {
